@@ -87,9 +87,14 @@ the failing case:
      commit(specific_files=['c/b/b']) with c/a/b itself untouched records nothing: the selected working path does
      not exist in the new revision (theorem selected_path_carried_witness; corpus 11)
  dirstate-unselected-entry-below-vacated-path
-     (NEW, directory-swap family) ... and everything below a directory that now sits at a path a
-     selected entry vacated: commit(specific_files=['e/d/b']) after `mv e z; mv c e; mv z/d e/d/b`
-     also commits the unselected new file e/d/new
+     (directory-swap family) ... and everything else the path-based search reaches through rename links
+     (rule: dirstate_reach): the search covers everything at or below a search path in either tree, and every
+     entry it finds that was itself moved adds its other path to the search paths, transitively - so also what
+     lies below a directory that now sits at a vacated path, the old neighbours at the path that directory came
+     from, and what lies below a directory that moved out of there.  commit(specific_files=['e/d/b']) after
+     `mv e z; mv c e; mv z/d e/d/b` also commits the unselected new file e/d/new (corpus 12: a rename chain).
+     The dirstate-superset tolerance of the T2 `commit` line excuses exactly the ids of dirstate_reach (and the
+     displaced / vacated ids of the first family), and only when the `from` line agrees
  (C10's subject, found here and repaired by /repo e6ca8fc: InterInventoryTree._handle_precise_ids never
   terminated on the directory-swap family - closure_diverges_witness is about the loop as found; the model
   uses the repaired loop; the commit itself uses the compiled comparison; corpus 10)
@@ -105,6 +110,7 @@ Mutants tried in a scratch worktree (finding families above ignored):
  m8 Commit.commit: pending merge + exclude no longer refused        -> oracle O7 + T2 commit line
  m9 _update_branches: local tip written before the master           -> oracle (fault at master update: tip moved) + T2 fault line
  m10 Commit.commit: only the first parent handed to the builder     -> oracle O5 (parents of a merge commit)
+ m11 Commit.commit: selection widened to the parent directories     -> oracle O2 plain (ids outside dirstate_reach are never excused)
  seed-C01b specific_files=[] treated as "no filter"                 -> oracle O2 (every scenario commits with [])
  harmless: filter_excluded with one combined condition              -> clean
 """
@@ -340,7 +346,9 @@ class W:
                 return ("kind", p, "file")
             if isf:
                 return ("kind", p, rng.choice(["symlink", "symlink", "directory"]) if self.fmt == "bzr" else "symlink")
-            if self.fmt == "bzr" and isdir(p) and not os.listdir(full):
+            # (a directory that still has versioned children - e.g. missing ones - is not replaced: an entry
+            # versioned below a non-directory is C09 / C11 territory, the working inventory view drops it)
+            if self.fmt == "bzr" and isdir(p) and not os.listdir(full) and not any(q.startswith(p + "/") for q in vp):
                 return ("kind", p, "file")
         if kind == "readd" and self.fmt == "bzr" and os.path.lexists(full) and not isdir(p):
             return ("readd", p, self.newid())
@@ -736,6 +744,7 @@ def run_bzr_query(base, basis, wtsnap, sel, excl, variant="strict"):
         occupiers = {wp[j] for j in wtsnap if wp.get(j) in vacated and bp.get(j) != wp.get(j)}
         below_vac = sorted(i for i in S if wp.get(i) is not None and any(
             wp[i].startswith(o + "/") for o in occupiers if o))
+        reach = dirstate_reach(sel, basis, wtsnap, bp, wp)
         wt = WorkingTree.open(d)
         revs1, tip1 = repo_state(wt)
         wt1 = snap_wt(wt)
@@ -760,7 +769,7 @@ def run_bzr_query(base, basis, wtsnap, sel, excl, variant="strict"):
                 viol.append(("commit raised %s but the working inventory changed" % impl, None))
             if wt.get_parent_ids() != parents0:
                 viol.append(("commit raised %s but the tree's parents changed %r -> %r" % (impl, parents0, wt.get_parent_ids()), None))
-            return dict(impl=impl, S=S, vac=sorted(set(vac) | set(below_vac)), viol=viol, counters=counters, below=below)
+            return dict(impl=impl, S=S, vac=sorted(set(vac) | set(below_vac) | (reach & set(S))), viol=viol, counters=counters, below=below)
         counters.append("bzr:ok")
         if len(parents0) > 1:
             counters.append("bzr:merge-commit")
@@ -821,7 +830,14 @@ def run_bzr_query(base, basis, wtsnap, sel, excl, variant="strict"):
                 fam = None
                 if i in vac and not (bp.get(i) is not None and any(j != i and wp.get(j) == bp.get(i) for j in S)):
                     fam = "dirstate-unselected-entry-at-vacated-path"
-                elif i in below_vac and i not in vac:
+                elif i in reach and i not in vac and any(
+                        j != i and j in reach and ((bp.get(i) is not None and wp.get(j) == bp.get(i)) or
+                                                   (wp.get(i) is not None and bp.get(j) == wp.get(i) and wp.get(j) != bp.get(j)))
+                        for j in set(basis) | set(wtsnap)):
+                    # displaced by / sitting in the place of another entry the comparison reached (dirstate_reach),
+                    # which is not recorded itself (e.g. it is excluded)
+                    fam = "dirstate-unselected-entry-at-vacated-path"
+                elif (i in below_vac or i in reach) and i not in vac:
                     fam = "dirstate-unselected-entry-below-vacated-path"
                 counters.append("bzr:unselected-committed")
                 viol.append(("O2 the pending change of unselected id %s (basis path %r, working path %r) was committed with "
@@ -848,7 +864,7 @@ def run_bzr_query(base, basis, wtsnap, sel, excl, variant="strict"):
         pend0 = {i for i in allids if basis.get(i) != wtsnap.get(i)}
         if unreadable:
             counters.append("bzr:recorded:%d" % min(len(S), 6))
-            return dict(impl=impl, S=S, vac=sorted(set(vac) | set(below_vac)), viol=viol, counters=counters, below=below)
+            return dict(impl=impl, S=S, vac=sorted(set(vac) | set(below_vac) | (reach & set(S))), viol=viol, counters=counters, below=below)
         pend1 = {x[0] for x in status_ids(wt)}
         if pend1 & must:
             viol.append(("O4 selected ids still reported as changed after the commit: %r" % sorted(pend1 & must), None))
@@ -872,9 +888,65 @@ def run_bzr_query(base, basis, wtsnap, sel, excl, variant="strict"):
         counters.append("bzr:recorded:%d" % min(len(S), 6))
         if any(e["kind"] == "missing" and i in basis and i in S for i, e in wtsnap.items()):
             counters.append("bzr:missing-recorded-as-removal")
-        return dict(impl=impl, S=S, vac=sorted(set(vac) | set(below_vac)), viol=viol, counters=counters, below=below)
+        return dict(impl=impl, S=S, vac=sorted(set(vac) | set(below_vac) | (reach & set(S))), viol=viol, counters=counters, below=below)
     finally:
         shutil.rmtree(d, ignore_errors=True)
+
+
+def dirstate_reach(sel, basis, wtsnap, bp, wp):
+    """The ids the path-based (compiled dirstate) comparison reaches from `specific_files` - the root cause of
+    the families dirstate-unselected-entry-at/below-vacated-path.  It compares *paths*, not ids:
+     (F) everything at or below a search path, in either tree, is compared; the search paths are the selected
+         paths and, for every entry found this way that was itself moved (its own parent or name differs between
+         basis and working tree), both of its paths - transitively;
+     (E) every proper ancestor path P of a search path is examined as a single path when the working tree has an
+         entry at P: that entry is compared, and so is a *different* entry the basis has at P (it was displaced
+         from P); an entry found this way that was itself moved gets its other path examined in the same way
+         (single path, no subtree) - transitively.
+    So besides the ids at or below the selected paths it reaches exactly: entries at or below a path that an
+    (F)-reached entry vacated or moved to (the unselected directory that now sits where a selected one was, its
+    old neighbours below the path it came from, what now lies below a directory that moved out of there), and the
+    chain of entries displacing each other along the working-tree ancestors of the search paths.  Ids outside
+    this set are never excused."""
+    allids = set(basis) | set(wtsnap)
+    if sel is None:
+        return allids
+    moved = lambda i: (basis.get(i) is not None and wtsnap.get(i) is not None and
+                       (basis[i]["parent"], basis[i]["name"]) != (wtsnap[i]["parent"], wtsnap[i]["name"]))
+    at_b = {p: i for i, p in bp.items() if p is not None and i in basis}
+    at_w = {p: i for i, p in wp.items() if p is not None and i in wtsnap}
+    full = set(sel)
+    single = set()
+    reach = set()
+    freach = set()
+    grew = True
+    while grew:
+        grew = False
+        for i in sorted(allids - freach):
+            if inside(full, bp.get(i)) or inside(full, wp.get(i)):
+                reach.add(i)
+                freach.add(i)
+                grew = True
+                if moved(i):
+                    full.update(p for p in (bp.get(i), wp.get(i)) if p is not None)
+        for f in sorted(full):
+            parts = f.split("/")
+            for k in range(1, len(parts)):
+                single.add("/".join(parts[:k]))
+        for p in sorted(single):
+            w = at_w.get(p)
+            if w is None:
+                continue
+            for i in (w, at_b.get(p)):
+                if i is not None and i not in reach:
+                    reach.add(i)
+                    grew = True
+                if i is not None and moved(i):
+                    for q in (bp.get(i), wp.get(i)):
+                        if q is not None and q not in single:
+                            single.add(q)
+                            grew = True
+    return reach
 
 
 def justified(i, recorded, must, basis, wtsnap, eff, bp, wp):
@@ -1019,11 +1091,16 @@ def run_git_query(base, basis, wtsnap, changes, sel, excl):
                         a, b, new.get(b), eff.get(b)), None))
                 if a not in written_by_kept and a in new and a not in eff:
                     viol.append(("O1 rename %r -> %r selected but the old path is still in the new revision" % (a, b), None))
-        old_of_kept = {a for a, b in changes if a is not None and b is not None and a != b and (
-            sel is None or inside_or_parent(sel, a) or inside_or_parent(sel, b)) and not (inside(excl, a) or inside(excl, b))}
+        # old paths of kept records - kept rename pairs and kept removals alike
+        old_of_kept = {a for a, b in changes if a is not None and a != b and (
+            sel is None or inside_or_parent(sel, a) or (b is not None and inside_or_parent(sel, b))) and not (
+            inside(excl, a) or (b is not None and inside(excl, b)))}
         for p in sorted(paired):
             if new.get(p) is None and p in old_of_kept:
-                continue            # the rename was committed: the old path is gone even if something new sits there
+                # the rename / removal of what was here was committed: the old path is gone even if something new
+                # sits there - e.g. the new occupant arrives by a rename pair that is dropped as a whole because
+                # its other path is excluded (it then stays, unrecorded, at its basis path, as in id space)
+                continue
             if new.get(p) not in (basis.get(p), eff.get(p)):
                 viol.append(("O2 path %r is %r in the new revision: neither basis nor working content" % (p, new.get(p)), None))
         if sel is None and not excl and new != eff:
